@@ -62,4 +62,42 @@ theorem Cont.run_nodup' (g : Cont K) (h : g.members.Nodup) (ops : List (ContOp K
     | insert k => exact Cont.nodup_insert' g k h
     | remove k => exact Cont.nodup_remove' g k h
 
+
+/-- how many `insert` (`ins = true`) resp. `remove` calls of a history returned `true` -/
+def countOk (ins : Bool) : List (ContOp K) → List Bool → Nat
+  | .insert _ :: t, b :: bs => (if ins && b then 1 else 0) + countOk ins t bs
+  | .remove _ :: t, b :: bs => (if !ins && b then 1 else 0) + countOk ins t bs
+  | _, _ => 0
+
+theorem Cont.len_pos_of_contains (g : Cont K) (k : K) (h : g.contains k = true) : 0 < g.len := by
+  unfold Cont.contains at h; unfold Cont.len
+  cases hm : g.members with
+  | nil => rw [hm] at h; simp at h
+  | cons a t => simp
+
+theorem Cont.run_len' (g : Cont K) (h : g.members.Nodup) (ops : List (ContOp K)) :
+    (g.runOuts ops).1.len + countOk false ops (g.runOuts ops).2 = g.len + countOk true ops (g.runOuts ops).2 := by
+  induction ops generalizing g with
+  | nil => simp [Cont.runOuts, countOk]
+  | cons op t ih =>
+    cases op with
+    | insert k =>
+      have hn := Cont.nodup_insert' g k h
+      have hl := Cont.len_insert' g k
+      have hr := (Cont.insert_spec' g k).1
+      have := ih (g.insert k).1 hn
+      simp only [Cont.runOuts, Cont.step, countOk, Bool.true_and, Bool.false_and] at this ⊢
+      rw [hr]
+      cases hc : g.contains k <;> simp [hc] at hl ⊢ <;> omega
+    | remove k =>
+      have hn := Cont.nodup_remove' g k h
+      have hl := Cont.len_remove' g k h
+      have hr := (Cont.remove_spec' g k).1
+      have := ih (g.remove k).1 hn
+      simp only [Cont.runOuts, Cont.step, countOk, Bool.true_and, Bool.not_true, Bool.false_and, Bool.not_false] at this ⊢
+      rw [hr]
+      cases hc : g.contains k
+      · simp [hc] at hl ⊢; omega
+      · have hp := Cont.len_pos_of_contains g k hc
+        simp [hc] at hl ⊢; omega
 end G
